@@ -90,7 +90,7 @@ theorem wf_runFrom_finds (env : Env) (fuel d : Nat) (kvs : List (Str × Json)) (
     ∃ state, objGet kvs name = some state ∧ wfState d kvs state = true ∧
       runFrom env (fuel + 1) (.obj kvs) name data ctx r st =
         runState env fuel (.obj kvs) name state data (ctxFor ctx name r) r
-          (st.enter (stateType state) name data r) := by
+          ((st.enter (stateType state) name data r).visit (stateType state)) := by
   obtain ⟨state, hs⟩ := defined_get hn
   exact ⟨state, hs, wfScope_get hw hs, by simp [runFrom, hs]⟩
 
@@ -103,7 +103,7 @@ theorem wf_leave_continues (env : Env) (fuel : Nat) (kvs : List (Str × Json)) (
       handleErr env fuel (.obj kvs) name state raw ctx r (S "States.DataLimitExceeded") (S "m") st ∨
     ∃ next, defined kvs next = true ∧
       leave env (fuel + 1) (.obj kvs) name state raw data ctx r st =
-        runFrom env fuel (.obj kvs) next data ctx 0 (st.exit (stateType state) name data) := by
+        runFrom env fuel (.obj kvs) next data ctx 0 ((st.exit (stateType state) name data).handover next) := by
   by_cases hlen : (render data).length > env.maxData
   · right; left
     by_cases hE : isTrue (fld state "End") = true
